@@ -75,6 +75,12 @@ fn p_marked_entries_are_integer_coded() {
     assert!(ret_is_i32(&vt.io_alias()), "C13 std::io::Result is integer-coded under the trait-level marker");
     assert!(ret_is_i32(&vt.last_plain()), "C13 methods declared AFTER an opted-out one are still integer-coded");
     core::mem::forget(o);
+    let i6 = any_imp(&mut calls);
+    let o = trait_obj!(i6 as PathArg);
+    let vt = o.get_vtbl();
+    assert!(ret_is_i32(&vt.pa_io()), "C13 a marker whose argument is spelled with a path (io::Result) still yields integer-coded entries");
+    assert!(ret_is_i32(&vt.pa_ext()) && ret_is_i32(&vt.pa_ext_unit()), "C13 methods declared extern \"C\" in a marked trait are integer-coded like the others");
+    core::mem::forget(o);
     kani::cover!(true, "end");
 }
 #[kani::proof]
